@@ -532,7 +532,7 @@ pub fn generate(seed: u64, profile: &Profile) -> LPlan {
                 _ => actions.push(TimedAction {
                     t: ft,
                     kind: Action::ClientSockFault {
-                        kind: if r.chance(0.6) { "wouldblock" } else { "err" }.to_string(),
+                        kind: r.pick(&["wouldblock", "wouldblock", "err", "err_try", "err_try"]).to_string(),
                         count: r.range(1, 6) as u32,
                     },
                 }),
